@@ -431,9 +431,15 @@ func runC45(c *Ctx) {
 		case "os.OpenFile":
 			if pathArg(0) && len(call.Args) >= 2 {
 				flags := types_ExprString(call.Args[1])
-				if strings.Contains(flags, "O_TRUNC") || strings.Contains(flags, "O_WRONLY") || strings.Contains(flags, "O_RDWR") {
+				writable := strings.Contains(flags, "O_WRONLY") || strings.Contains(flags, "O_RDWR")
+				if strings.Contains(flags, "O_TRUNC") {
 					inPlace++
 					firstBad = call.Pos()
+				} else if writable {
+					// a different defect from the recorded one: without O_TRUNC the new
+					// content is laid over the old bytes, and until a later truncate the
+					// file is the new text followed by the tail of the old one
+					c.Ob("atomic-replace", "tun/client.(*Config).writeFile#final-path-overwritten-without-truncation", call.Pos(), false, "Config.path is opened writable without O_TRUNC ("+flags+"): the new configuration is written over the previous bytes, so a crash (or a failing truncate) leaves new text followed by the tail of the old file - unparseable, the identity is lost even though the encode completed")
 				}
 			}
 		case "os.Create", "os.WriteFile", "io/ioutil.WriteFile":
@@ -441,9 +447,30 @@ func runC45(c *Ctx) {
 				inPlace++
 				firstBad = call.Pos()
 			}
+		case "os.File.Truncate", "os.Truncate", "os.File.Seek", "os.File.WriteAt":
+			c.Ob("atomic-replace", "tun/client.(*Config).writeFile#no-"+strings.TrimPrefix(strings.TrimPrefix(k, "os.File."), "os.")+"-in-writeFile", call.Pos(), false, "writeFile repositions or cuts the file it writes ("+g.Str(call)+"): a second step after the encode that can fail or be interrupted leaves a file that is neither the old nor the new configuration")
 		}
 	}
 	c.Ob("atomic-replace", "tun/client.(*Config).writeFile#open-trunc-final-path", firstBad, inPlace == 0, "the configuration (certificate, private key, tunnels) is written by opening Config.path itself with O_TRUNC: a crash after the truncation and before the encode completes leaves an empty or partial file - the identity is lost. Required: write a temporary file in the same directory, sync, close, rename over the path")
+	// the in-place writer at least reports a failed encode to its caller (the caller must
+	// not go on believing the identity was persisted)
+	for _, enc := range wf.Calls(true, func(call *ast.CallExpr) bool {
+		return strings.HasSuffix(wf.enclosing(call).CallKey(call), "yaml.v3.Encoder.Encode")
+	}) {
+		g := wf.enclosing(enc)
+		returned := false
+		for _, r := range g.Returns() {
+			if containsNode(r, enc) {
+				returned = true
+			}
+			for _, res := range r.Results {
+				if strings.HasSuffix(g.Prov(res), "Encoder.Encode()#0") || strings.Contains(g.Prov(res), ".Encode()") {
+					returned = true
+				}
+			}
+		}
+		c.Ob("atomic-replace", "tun/client.(*Config).writeFile#encode-error-returned", enc.Pos(), returned, "a failed encode is reported to the caller")
+	}
 	ren := wf.CallsTo(true, "os.Rename")
 	okRen := false
 	for _, r := range ren {
